@@ -9,6 +9,17 @@ import CnbVerif.Model.Platform
 > <platform>/env and a missing env directory or store.toml are tolerated; a value that cannot be represented is a
 > reported error, never silently dropped or altered.
 
+**The directories.** "Contains exactly the inputs the lifecycle provided: the app, buildpack and layers directories": a
+directory the lifecycle provides *as a path text* — the `<layers>` argument, the value of `CNB_BUILDPACK_DIR` — is an input like
+any other and is in the context *as provided*: the same bytes, not resolved (links), not made absolute, not normalised (`.`,
+`..`, doubled or trailing slashes). Two texts that lead to the same directory are two different inputs ("never silently …
+altered"; a buildpack that writes the path into a layer's environment or compares it with what the platform mounted must see the
+platform's spelling). The app directory is provided differently: the lifecycle makes it the working directory and hands over no
+text; what the process is given is the working directory itself, so `app_dir` must be the working directory's name as
+`getcwd` reports it (`Inputs.cwd`) — the property text gives no ground to ask for the spelling the lifecycle used to enter it,
+which the process cannot see. The `<platform>` and `<plan>` arguments are not context fields; their spelling must simply not
+matter for what is read through them (the platform environment, the plan) — that is the remaining clauses, unchanged.
+
 Written from this text; only the plain data types of `Model/Platform.lean` are shared (`EntryKind`, `PlatDir`, `VarVal`,
 `TargetVars`, `Target`, `Inputs`, `Ctx`), none of its functions. `valid` is "can be represented" (a Rust `String`).
 -/
@@ -64,7 +75,8 @@ def optVar : VarVal → Option Bytes
 def sameVars (a b : List (Bytes × Bytes)) : Bool :=
   a.all (fun x => b.contains x) && b.all (fun x => a.contains x) && decide ((a.map (·.1)).Nodup)
 
-/-- field-by-field: the context holds exactly what was supplied -/
+/-- field-by-field: the context holds exactly what was supplied. The three directories are compared as texts, byte for byte
+(`i.bpDir`, `i.layersDir`: as written by the platform; `i.cwd`: as reported by `getcwd`). -/
 def faithful {X : Type} [DecidableEq X] (i : Inputs X) (c : Ctx X) : List (String × Bool) :=
   [ ("app_dir", c.appDir == i.cwd),
     ("buildpack_dir", c.bpDir == i.bpDir),
